@@ -49,6 +49,8 @@ namespace occa {
     void removeModeMemoryRef(modeMemory_t *mem) override;
 
    private:
+    udim_t uncoveredBytes(const modeMemory_t *mem) const;
+
     virtual modeBuffer_t* makeBuffer()=0;
     virtual void setPtr(modeMemory_t* mem, modeBuffer_t* buf, const dim_t offset)=0;
     virtual void memcpy(modeBuffer_t* dst, const dim_t dstOffset,
